@@ -712,6 +712,16 @@ void cmb_process_stop(struct cmb_process *tgt, void *retval)
 
     /* Stop the underlying coroutine, set its exit value */
     struct cmi_coroutine *cp = (struct cmi_coroutine *)tgt;
+    if (cp == cmi_coroutine_current()) {
+        /*
+         * Stopping ourselves: cmi_coroutine_stop will not return, so the
+         * unfinished business has to be cleaned up first.
+         */
+        cmi_process_cancel_awaiteds(tgt);
+        cmi_process_drop_resources(tgt);
+        wake_process_waiters(&(tgt->waiters), CMB_PROCESS_STOPPED);
+    }
+
     cmi_coroutine_stop(cp, retval);
 
     /* Clean up unfinished business */
